@@ -58,7 +58,10 @@ func enumItemsCfg(c *mc.Ctx, items []ref.Item, cfgs func(*ref.T) []ref.Cfg, f fu
 			c.Note(fmt.Sprintf("worker %d stopped before type #%d of %d", c.W, ti, len(items)))
 			return
 		}
-		vals := ref.Values(it.T, lvl)
+		vals := it.Vals
+		if vals == nil {
+			vals = ref.Values(it.T, lvl)
+		}
 		for _, cfg := range cfgs(it.T) {
 			if ref.ClassOf(cfg, it.T, "") == ref.CR {
 				continue // documented: the repeated form does not work outside a struct
